@@ -333,7 +333,19 @@ inline int run_child(Scenario const& sc, std::vector<int> const& prefix, std::ve
   if (C.nondet)
     verdict = "nondet";
   else if (C.overflow)
-    verdict = "overflow";
+  {
+    // the execution did not finish within the scheduling-point budget: some actor keeps "making progress" for ever
+    // (e.g. a record that is re-read and reported on every poll).  Default: a livelock violation.
+    if (sc.c("overflow_ok", 0) != 0)
+      verdict = "overflow";
+    else
+    {
+      verdict = "violation";
+      W.violation_kind = "livelock";
+      W.violation_detail = "execution exceeded " + std::to_string(C.max_points) + " scheduling points: the system never becomes quiescent; notifier messages so far: " +
+        std::to_string(W.notes.size()) + (W.notes.empty() ? "" : " last: " + W.notes.back().substr(0, 160));
+    }
+  }
   if (C.stall) W.vars["stall"] = 1;
   if (!C.nondet && !C.overflow)
   {
@@ -506,18 +518,27 @@ inline ChildResult run_sync(Scenario const& sc, Job const& j)
   return parse_result(r.buf, st);
 }
 
-inline std::string choices_str(std::vector<int> const& c)
+inline std::string choices_str(std::vector<int> const& c0)
 {
+  // trailing zeros are the default continuation and carry no information
+  std::vector<int> c = c0;
+  while (!c.empty() && c.back() == 0) c.pop_back();
   std::string s;
   for (size_t i = 0; i < c.size(); ++i) s += (i ? "," : "") + std::to_string(c[i]);
-  return s;
+  return s.empty() ? "0" : s;
 }
 
 inline std::string trace_pretty(std::vector<PointRec> const& t)
 {
   std::string s;
+  size_t shown = 0;
   for (auto const& p : t)
   {
+    if (++shown > 80)
+    {
+      s += "... (" + std::to_string(t.size()) + " choice points)";
+      break;
+    }
     s += (p.actor == 0 ? std::string("B") : "F" + std::to_string(p.actor)) + "@" + std::to_string(p.point);
     if (p.chosen != 0 && p.cur_enabled) s += "!";
     s += " ";
